@@ -246,6 +246,8 @@ def make(n, kinds, jobs_hi, sigterm_bit=True, orders="rev"):
                       "the signal was ignored: cond exited 0; stderr=%r; %s" % (res.err[-200:], ctxt))
             g.require(res.status == 1 and "aborted by the user" in res.err,
                       "abort:not-reported@" + func, "status=%r stderr=%r; %s" % (res.status, res.err[-300:], ctxt))
+            if len(running_at) >= 3:
+                g.goal("signal with three tasks in flight")
             if len(running_at) >= 2:
                 g.goal("signal with two tasks in flight")
             if len(running_at) == 1:
@@ -304,6 +306,13 @@ def spaces(tier):
           Space("chain2-seq-fail", make(2, ("run_experiment",), 1, sigterm_bit=True),
                 "2 sequential experiments t0 <- t1, t0 may fail, SIGINT or SIGTERM at every point", depth="marker",
                 preset={"e0_1": True, "p0": False, "p1": False, "bad1": False})]
+    sp.append(Space("par4-j3", make(4, ("run_experiment", "run_command"), 3, sigterm_bit=False),
+                    "4 tasks: t0, t1, t2 independent and parallelizable (command, experiment, command), t3 (experiment) depends on all "
+                    "three; --jobs 3; SIGINT at every executed line and every blocked read", depth="marker",
+                    goals=["signal with three tasks in flight"],
+                    preset={"e0_1": False, "e0_2": False, "e1_2": False, "e0_3": True, "e1_3": True, "e2_3": True, "rev3": False, "rev2": False,
+                            "p0": True, "p1": True, "p2": True, "p3": False, "bad0": False, "bad1": False, "bad2": False, "bad3": False,
+                            "k0": 1, "k1": 0, "k2": 1, "k3": 0, "jobs": 2}))
     if tier == "thorough":
         sp.append(Space("par3-j12-kinds", make(3, ("run_experiment", "run_command"), 2, sigterm_bit=False),
                         "par3 shape with every kind vector over {experiment, command}, jobs 1..2, SIGINT at every point",
